@@ -271,6 +271,8 @@ impl Pointer {
     pub fn strip_prefix<'a>(&'a self, prefix: &Self) -> Option<&'a Self> {
         self.0
             .strip_prefix(&prefix.0)
+            // ensure we end at a token boundary
+            .filter(|s| s.is_empty() || s.starts_with('/'))
             // SAFETY: the suffix is a valid pointer, so removing it from the
             // front of another pointer will preserve token boundaries
             .map(|s| unsafe { Self::new_unchecked(s) })
